@@ -70,7 +70,8 @@ var jC02 = reg(&Judge{
 	Profile: Profile{MinProcs: 1, MaxProcs: 3, EdgeProb: 0, Conds: allConds,
 		Policies: []string{"", "no", "always", "always", "on_failure", "on_failure", "exit_on_failure"}, MaxRestartsMax: 4, BackoffMax: 3,
 		MaxSteps: 10, Codes: []int{0, 1, 2}, APIOps: []string{sc.OpStop, sc.OpStop, sc.OpShutdown},
-		SignalBeh: []string{"", "", "hold"}},
+		SignalBeh: []string{"", "", "hold"}, BackoffStops: true,
+		Holds: []string{"run.afterWait", "run.afterBackoff"}, HoldOps: []string{sc.OpStop, sc.OpStop, sc.OpShutdown}},
 	Oracle: oracle.C02,
 	Classify: func(h *sc.History, x *oracle.Idx) (bool, []string) {
 		var labels []string
@@ -113,7 +114,8 @@ var jC03 = reg(&Judge{
 		Policies: []string{"", "no", "always", "on_failure"}, MaxRestartsMax: 3, BackoffMax: 2,
 		Probes: true, ReadyLines: true, MaxSteps: 8, Codes: []int{0, 1}, ShutdownStep: true,
 		SignalBeh: []string{"", "", "hold", "ignore"}, StartErr: true,
-		Holds: []string{"run.enter", "run.afterTerminatingCheck", "run.afterWait", "run.afterBackoff", "runProcess.beforeWait", "runProcess.afterWait", "stop.afterIsRunningCheck"}},
+		BackoffStops: true, HoldOps: []string{sc.OpShutdown},
+		Holds: []string{"run.enter", "run.afterTerminatingCheck", "run.afterWait", "run.afterBackoff", "runProcess.beforeWait", "runProcess.afterWait"}},
 	Oracle: oracle.C03,
 	Classify: func(h *sc.History, x *oracle.Idx) (bool, []string) {
 		var labels []string
